@@ -79,7 +79,7 @@ def plan(tier, seed, budget):
     units = rule_units()
     names = sorted(units)
     H = hosts()
-    per_rule = int((150 if tier == "quick" else 6000) * budget)
+    per_rule = int((240 if tier == "quick" else 6000) * budget)
     only = os.environ.get("VERIF_ONLY")
     specs = []
     for n in names:
